@@ -189,7 +189,7 @@ def _covers(exported, cell):
 def run(chk):
     b = core.standard_build(chk)
     model = core.Model() if b.modelrun_ok else None
-    full = chk.tier == 'thorough' or bool(b.drift) or not b.proof_ok
+    full = chk.tier == 'thorough' or bool(b.drift) or not b.proof_ok or not b.modelrun_ok
     rng = chk.rng
     hists = []
     base = ['4c', '4zz', '=1', 'c4']
